@@ -62,7 +62,7 @@ uint8_t vp_hash_output_is(uint32_t k, char *r) { ASSERT(k < vp_hn, "hash log ind
    Element i lives in array[begin + i]; begin is the constant LD_B of c20_qt_list.c. ---- */
 #ifdef HAVE_T_struct_QListData__Data
 #define SL(l, i) ((l)->array[LD_B + (i)])
-static int sl_cmp(QAD *a, QAD *b) { return vpl_qcmp16(a, b); }
+static int sl_cmp(QAD *a, QAD *b, uint32_t cs) { return cs == 1 ? vpl_qcmp16(a, b) : vpl_qcmp16ci(a, b); }
 /* removeDuplicates: keeps the first occurrence of every string, in order (Qt contract); returns the number removed */
 uint32_t _ZN9QtPrivate28QStringList_removeDuplicatesEP11QStringList(char *self) { struct ld *l = LD(self); uint32_t n = l->end - l->begin; if (n == 0) return 0;
   ASSERT(l->begin == LD_B, "removeDuplicates: begin"); ASSERT(n <= LIST_CAP, "QList capacity of the model exceeded");
@@ -75,14 +75,15 @@ uint32_t _ZN9QtPrivate28QStringList_removeDuplicatesEP11QStringList(char *self) 
     keep[i] = !dup; if (!dup) j++; }
   for (uint32_t p = 0; p < LIST_CAP; p++) { if (p >= n) break; for (uint32_t i = 0; i < LIST_CAP; i++) { if (i >= n) break; if (i >= p && keep[i] && rank[i] == p) SL(l, p) = old[i]; } }
   l->end = l->begin + j; return n - j; }
-/* sort: ascending by code units (case sensitive); bubble network over fixed slots */
+/* sort: ascending by code units (case sensitive) or by case-folded code units (Qt: std::sort with s1.compare(s2, cs) < 0; below
+   16 elements that is an insertion sort, i.e. stable like this network); bubble network over fixed slots */
 void _ZN9QtPrivate16QStringList_sortEP11QStringListN2Qt15CaseSensitivityE(char *self, uint32_t cs) { struct ld *l = LD(self); uint32_t n = l->end - l->begin; if (n < 2) return;
-  ASSERT(cs == 1, "case-insensitive sort not modelled"); ASSERT(l->begin == LD_B, "QStringList::sort: begin"); ASSERT(n <= LIST_CAP, "QList capacity of the model exceeded");
+  ASSERT(l->begin == LD_B, "QStringList::sort: begin"); ASSERT(n <= LIST_CAP, "QList capacity of the model exceeded");
   if (l->ref != 1) { /* detach (Qt: that->begin()): private copy of the slots, every string gains a reference */
     struct ld *t = ld_new(n); for (uint32_t k = 0; k < LIST_CAP; k++) { if (k >= n) break; SL(t, k) = (char*)qad_ref((QAD*)SL(l, k)); }
     if (l->ref != (uint32_t)-1 && l->ref != 0) l->ref--; LD(self) = t; l = t; }
   for (uint32_t pass = 0; pass + 1 < LIST_CAP; pass++) { if (pass + 1 >= n) break;
-    for (uint32_t k = 0; k + 1 < LIST_CAP; k++) { if (k + 1 >= n) break; if (sl_cmp((QAD*)SL(l, k + 1), (QAD*)SL(l, k)) < 0) { char *t = SL(l, k); SL(l, k) = SL(l, k + 1); SL(l, k + 1) = t; } } } }
+    for (uint32_t k = 0; k + 1 < LIST_CAP; k++) { if (k + 1 >= n) break; if (sl_cmp((QAD*)SL(l, k + 1), (QAD*)SL(l, k), cs) < 0) { char *t = SL(l, k); SL(l, k) = SL(l, k + 1); SL(l, k + 1) = t; } } } }
 #ifndef C20_ELCAP
 #define C20_ELCAP 4u   /* longest list element join() handles */
 #endif
@@ -181,8 +182,13 @@ void vp_c20_strlist_push(char *list, char *qstring) { vp_c20_list_push(list, (ch
    the same comparator calls on the same operands in the same order - the comparator itself stays the real code
    (identityLessThan) resp. the QString operator< model - and writes the result back.  n <= LIST_CAP (<= 16) asserted. ---- */
 #ifdef HAVE_T_struct_QListData__Data
-uint8_t F__ZL16identityLessThanRKN16QXmppDiscoveryIq8IdentityES2_(char*, char*);
+/* weak: a tree whose verificationString() no longer has this comparator (it then does not call std::sort on the identity list
+   either) must still link for the native replay of a counterexample */
+uint8_t F__ZL16identityLessThanRKN16QXmppDiscoveryIq8IdentityES2_(char*, char*) __attribute__((weak));
+static char *c20_sort_comp;   /* kind 2: bool (*)(const QString &, const QString &), called on the addresses of two local copies of the slot words
+   (a QString IS its d-pointer, QList<QString> keeps it in the slot) */
 static uint8_t c20_less(int kind, char *a, char *b) { if (kind == 0) return vpl_qcmp16((QAD*)a, (QAD*)b) < 0;
+  if (kind == 2) { char *x = a, *y = b; return ((uint8_t (*)(char*, char*))c20_sort_comp)((char*)&x, (char*)&y); }
 #ifdef C20_HAVE_IDLESS
   return F__ZL16identityLessThanRKN16QXmppDiscoveryIq8IdentityES2_(a, b);
 #else
@@ -202,6 +208,7 @@ static void c20_insertion_sort(char *firstp, char *lastp, int kind) { char **slo
         if (k > 1 && c20_less(kind, val, e[k - 1])) e[k] = e[k - 1]; else { e[k] = val; done = 1; } } } }
   for (uint32_t k = 0; k < LIST_CAP; k++) { if (k < n) slots[k] = e[k]; } }
 void _ZSt6__sortIN5QListI7QStringE8iteratorEN9__gnu_cxx5__ops15_Iter_less_iterEEvT_S7_T0_(char *first, char *last) { c20_insertion_sort(first, last, 0); }
+void _ZSt6__sortIN5QListI7QStringE8iteratorEN9__gnu_cxx5__ops15_Iter_comp_iterIPFbRKS1_S8_EEEEvT_SC_T0_(char *first, char *last, char *comp) { ASSERT(comp != 0, "std::sort model: null comparator"); c20_sort_comp = comp; c20_insertion_sort(first, last, 2); }
 void _ZSt6__sortIN5QListIN16QXmppDiscoveryIq8IdentityEE8iteratorEN9__gnu_cxx5__ops15_Iter_comp_iterIPFbRKS2_S9_EEEEvT_SD_T0_(char *first, char *last, char *comp) {
 #ifdef C20_HAVE_IDLESS
   ASSERT(comp == (char*)&F__ZL16identityLessThanRKN16QXmppDiscoveryIq8IdentityES2_, "std::sort model: unexpected comparator");
